@@ -302,6 +302,10 @@ def h_acquire(pre, mode):
         return ['acquire', 'queued']
     if req is None:
         P(core.sym_not(known), 'an ACQUIRE carrying the index of an installed outbound policy was ignored')
+        # ignored means ignored: no IKE_SA appears in the table (and in the status report, and in the half-open count) for it
+        if len(ctl.ike_sas) != n_before:
+            return {'class': ['acquire'], 'violation': f'an ACQUIRE for an unknown policy index left {len(ctl.ike_sas) - n_before} new IKE_SA(s) in the table '
+                                                       f'(state {ctl.ike_sas[-1].state.name})'}
         return ['acquire', 'ignored']
     P(known, 'an ACQUIRE for an unknown policy index started a negotiation')
     if peer_addr != which_peer or my_addr != world.IP2:
